@@ -1,3 +1,4 @@
+import Treepath.Proofs.Drive
 import Treepath.Model.Api
 import Treepath.Proofs.MachineLemmas
 /- C07 — result iterators are lazy, stay exhausted, and do not interfere -/
@@ -22,6 +23,23 @@ theorem stays_exhausted (view : α → View α) (steps : Array (Step α)) (src :
     (st st' : St α) (evs : List (Ev α)) (h : next view steps src l1 st = (st', evs, .stop)) :
     next view steps src (l2+1) st' = (st', [.stop], .stop) :=
   done_stays_done view steps src l2 st' (stop_only_from_done view steps src l1 st st' evs h)
+
+/-- **lazy**: after `k` successful calls of `next()` the iterator has yielded the first `k`
+results of the complete answer … -/
+theorem first_k_results (steps : Array (Step J)) (src : Src J) (hq : Quiet steps.toList) (hp : PredsClean steps)
+    (limit : Nat) (st' : St J) (rs : List (MNode J)) (E : List (Ev J))
+    (hy : Yields J.view steps src limit freshIter rs E st') :
+    ∃ rest, eval steps.toList src.rootNode = rs ++ rest :=
+  yields_prefix steps src hq hp limit st' rs E hy
+
+/-- … and everything it has done so far — every match attempt and every user-predicate call —
+is a prefix of the specification's stream ending at the `k`-th result: predicates have been
+invoked only on the candidates up to the `k`-th result -/
+theorem work_so_far_is_a_prefix (steps : Array (Step J)) (src : Src J) (hq : Quiet steps.toList) (hp : PredsClean steps)
+    (limit : Nat) (st' : St J) (rs : List (MNode J)) (E : List (Ev J))
+    (hy : Yields J.view steps src limit freshIter rs E st') :
+    ∃ E2, stream steps.toList 0 src.rootNode = E ++ E2 :=
+  yields_stream_prefix steps src hq hp limit st' rs E hy
 
 /-- an iterator is a value: advancing one iterator cannot change what another one yields
 (the model has no shared mutable state; shared *path objects* are immutable, C15) -/
